@@ -85,6 +85,23 @@ def equal_owner_pass(ctx):
                             f'a proxy or directly): held {len(held)} time(s), eContainer() is the container {y.eContainer() is b3}',
                             {'equal_owner': k, 'proxy_root': True, 'reset': form})
                 return
+        # ... and a move between two boxes where one side of the move is the proxy and the other the object itself: one owner
+        for first, second in (('proxy', 'instance'), ('instance', 'proxy')):
+            z, c1, c2 = Item(), Box('m'), Box('n')
+            for box, form in ((c1, first), (c2, second)):
+                v = z if form == 'instance' else EProxy(wrapped=z)
+                if many:
+                    box.items.append(v)
+                else:
+                    box.items = v
+            in1 = [c for c in (c1.items if many else ([c1.items] if c1.items is not None else [])) if c is z or getattr(c, '_wrapped', None) is z]
+            in2 = [c for c in (c2.items if many else ([c2.items] if c2.items is not None else [])) if c is z or getattr(c, '_wrapped', None) is z]
+            if in1 or len(in2) != 1 or z.eContainer() is not c2:
+                ctx.violate({'clause': 'multi-owner', 'through_proxy': True, 'move': True},
+                            f'multi-owner: a child given to one box as {first}, then to another as {second}: the first still holds it '
+                            f'{bool(in1)}, the second holds it {len(in2)} time(s), eContainer() is the second {z.eContainer() is c2}',
+                            {'equal_owner': k, 'proxy_move': f'{first}-{second}'})
+                return
         # two equal roots: removing the second must not take out the first
         r = Resource()
         r.append(b1); r.append(b2)
